@@ -27,7 +27,7 @@ def search(depth=4):
     from operon_ai.organelles.lysosome import Lysosome, Waste, WasteType
     from native.replay import InstrumentedLock, ReentryDetected
     n = 0
-    ops_all = ["ingest", "ingest_toxic", "ingest_bad", "digest", "digest1", "autophagy"]
+    ops_all = ["ingest", "ingest_toxic", "ingest_bad", "digest", "digest1", "digest0", "autophagy"]
     for maxq in (2, 3):
         for thr in (1, 2, 3, 5):
             for seq in itertools.product(ops_all, repeat=depth):
@@ -42,11 +42,25 @@ def search(depth=4):
                         object.__setattr__(self, k, v)
                 toxic_calls = []
                 with contextlib.redirect_stdout(io.StringIO()):
-                    ly = Spy(max_queue_size=maxq, auto_digest_threshold=thr, silent=True, on_toxic=lambda w: toxic_calls.append(id(w)),
+                    ly = Spy(max_queue_size=maxq, auto_digest_threshold=thr, silent=True, on_toxic=lambda w: toxic_calls.append(w),
                              digesters={WasteType.ORPHANED_RESOURCE: lambda w: (_ for _ in ()).throw(RuntimeError("bad digester"))})
                     ly._lock = InstrumentedLock(reentrant="RLock" in type(ly.__dict__["_lock"]).__name__ or hasattr(ly.__dict__["_lock"], "_is_owned"))
                     object.__setattr__(ly, "_armed", True)
                     ingested = errors = expired = 0
+                    acct = {"errors": 0, "dropped": 0}
+                    real_digest, real_emergency = ly.digest, ly._emergency_digest
+
+                    def spy_digest(*a, _rd=real_digest, **k):
+                        r_ = _rd(*a, **k)
+                        acct["errors"] += len(r_.errors)           # also the digests started internally (auto-digest), whose result is discarded
+                        return r_
+
+                    def spy_emergency(_re=real_emergency):
+                        q0, d0 = len(ly._queue), ly._total_digested
+                        _re()
+                        acct["dropped"] += (q0 - len(ly._queue)) - (ly._total_digested - d0)   # taken off the queue without being counted as digested
+                    object.__setattr__(ly, "digest", spy_digest)
+                    object.__setattr__(ly, "_emergency_digest", spy_emergency)
                     toxic_ids = []
                     for op in seq:
                         def step(op=op):
@@ -66,6 +80,9 @@ def search(depth=4):
                             elif op == "digest1":
                                 r = ly.digest(max_items=1)
                                 errors += len(r.errors)
+                            elif op == "digest0":
+                                r = ly.digest(max_items=0)
+                                errors += len(r.errors)
                             else:
                                 expired += ly.autophagy()
                         st, v = run_with_watchdog(step)
@@ -75,6 +92,12 @@ def search(depth=4):
                             if isinstance(v, ReentryDetected):
                                 return n, f"hang: Lysosome(max_queue_size={maxq}, auto_digest_threshold={thr}) ops={seq}: {op} re-acquires the non-reentrant lock it holds"
                             return n, f"raise: ops={seq}: {op} raised {type(v).__name__}: {v}"
+                        accounted = len(ly._queue) + ly._total_digested + acct["errors"] + acct["dropped"] + expired
+                        if accounted != ingested:
+                            return n, (f"accounting: after ops={seq[:seq.index(op) + 1] if False else seq} (at {op}) with max_queue_size={maxq}, auto_digest_threshold={thr}: {ingested} ingested but "
+                                       f"{len(ly._queue)} queued + {ly._total_digested} digested + {acct['errors']} digestion errors + {acct['dropped']} emergency-dropped + {expired} expired = {accounted}")
+                        if len(toxic_calls) != len({id(x) for x in toxic_calls}):       # the objects are kept alive in the list, so ids are unique
+                            return n, f"toxic callback called twice for one item after ops={seq}"
                         if len(ly._queue) > maxq:
                             return n, f"queue bound: {len(ly._queue)} > max_queue_size={maxq} after ops={seq}"
                         if "secret" in [str(x) for x in ly._recycling_bin.values()]:
@@ -87,7 +110,7 @@ def search(depth=4):
 if __name__ == "__main__":
     depth = int(sys.argv[1]) if len(sys.argv) > 1 else 3
     n, bad = search(depth)
-    out = {"status": "ok" if bad is None else "violation", "bound": f"max_queue_size 2..3, auto_digest_threshold in {{1,2,3,5}}, op sequences of length {depth} over 6 ops",
+    out = {"status": "ok" if bad is None else "violation", "bound": f"max_queue_size 2..3, auto_digest_threshold in {{1,2,3,5}}, op sequences of length {depth} over 7 ops (per-call accounting of every ingested item)",
            "cases": n}
     if bad:
         out["detail"] = bad
